@@ -1899,7 +1899,11 @@ class BreakAction(Action, HasDefaultDebugInfo):
         return True
 
     def get_target_override_targets(self):
-        return [self.refers_to.end_state]
+        # (the actions that follow the loop run with the break: an append among them may redirect as well)
+        targets = [self.refers_to.end_state]
+        for action in self.replacement_actions():
+            targets.extend(action.get_target_override_targets())
+        return targets
 
     def get_target_override_mode(self):
         return ActionOverrideMode.ALWAYS_GOTO_OTHER
@@ -4522,6 +4526,7 @@ class ParseCtx:
             }.get(char_const[2], char_const[2])
 
     def _convert_int(self, text: str):
+        source = text
         sign = 1
         if text[0] == "+":
             text = text[1:]
@@ -4529,12 +4534,16 @@ class ParseCtx:
             sign = -1
             text = text[1:]
 
-        if text[0:2] == "0x":
-            return sign * int(text[2:], base=16)
-        elif text[0:2] == "0b":
-            return sign * int(text[2:], base=2)
-        else:
-            return sign * int(text)
+        try:
+            if text[0:2] == "0x":
+                return sign * int(text[2:], base=16)
+            elif text[0:2] == "0b":
+                return sign * int(text[2:], base=2)
+            else:
+                return sign * int(text)
+        except ValueError as e:
+            # "0b" / "0x" without digits, or more digits than Python converts
+            raise IllegalParseTree("Invalid integer literal", source) from e
 
     def _convert_string(self, escaped_string: str):
         """
@@ -4642,7 +4651,7 @@ class ParseCtx:
             return OutputStorage(OutputStorageType.ENUM, name, default_value=default_value, enum_values=list(x.value for
                 x in type_obj.children))
         elif type_obj.data in ("str_type", "unterm_str_type"):
-            storage = OutputStorage(OutputStorageType.STR, name, default_value=default_value, str_size=self._convert_int(type_obj.children[0].value),
+            storage = OutputStorage(OutputStorageType.STR, name, default_value=default_value, str_size=self._convert_int(type_obj.children[0]),
                                     str_null=type_obj.data == "str_type")
             if storage.str_size < 1:
                 raise IllegalParseTree("A string output needs a size of at least 1", type_obj.children[0])
@@ -4660,7 +4669,7 @@ class ParseCtx:
         """
 
         if expr.data == "math_num":
-            return ProgramData.imbue(ProgramData.imbue(LiteralIntegerExpr(self._convert_int(expr.children[0].value)), DTAG.SOURCE_LINE, expr.meta.line), DTAG.SOURCE_COLUMN, expr.meta.column)
+            return ProgramData.imbue(ProgramData.imbue(LiteralIntegerExpr(self._convert_int(expr.children[0])), DTAG.SOURCE_LINE, expr.meta.line), DTAG.SOURCE_COLUMN, expr.meta.column)
         elif expr.data == "math_char_const":
             return ProgramData.imbue(ProgramData.imbue(LiteralIntegerExpr(ord(self._convert_char_const(expr.children[0].value))), DTAG.SOURCE_LINE, expr.meta.line), DTAG.SOURCE_COLUMN, expr.meta.column)
         elif expr.data == "math_var":
@@ -4745,7 +4754,7 @@ class ParseCtx:
             raise IllegalParseTree("String-typed value encountered for integer-typed expression", expr)
 
         if expr.data == "number_const":
-            val = LiteralIntegerExpr(self._convert_int(expr.children[0].value))
+            val = LiteralIntegerExpr(self._convert_int(expr.children[0]))
             ProgramData.imbue(val, DTAG.SOURCE_LINE, expr.children[0].line)
             ProgramData.imbue(val, DTAG.SOURCE_COLUMN, expr.children[0].column)
             return val
@@ -4756,10 +4765,12 @@ class ParseCtx:
             return val
         elif expr.data == "identifier_const":
             try:
-                expr = self._lookup_named_entity(MacroArgumentKind.EXPR, expr.children[0])
-                return self._parse_integer_expr(expr, into_storage=into_storage)
+                bound_expr = self._lookup_named_entity(MacroArgumentKind.EXPR, expr.children[0])
             except UndefinedReferenceError:
-                pass
+                bound_expr = None
+            if bound_expr is not None:
+                # (an undefined name inside the bound expression is an error of its own, not "this is not a macro argument")
+                return self._parse_integer_expr(bound_expr, into_storage=into_storage)
 
             if into_storage is None:
                 raise IllegalParseTree("Undefined enumeration value, no into_storage", expr)
@@ -6058,6 +6069,9 @@ class CodegenCtx:
             transition_body.add()
             transition_body.add(f"// action {action!r} ")
             transition_body += self._generate_action_implementation(action, is_end=from_end, transition=transition)
+            if action.get_target_override_mode() == ActionOverrideMode.ALWAYS_GOTO_UNDEFINED:
+                # a finish returns: what was chained behind it is never reached (nor are the states only it refers to kept)
+                break
         if any(
             any(
                 ProgramData.lookup(subact, DTAG.ACTION_MAY_SKIP, recurse_upwards=False, default=False) for subact in action.all_subactions()
